@@ -255,4 +255,25 @@ CANARIES: Dict[str, Dict[str, Any]] = {
         old="    p.__reduce_ex__ = _parameter_reduce_ex.__get__(p)\n    return p\n\n\ndef _parameter_reduce_ex", new="    return p\n\n\ndef _parameter_reduce_ex",
         job="c09:_parameter_reduce_ex", expect=["invariant_reduce_ex_hook_installed"],
     ),
+    "c12-readout-uses-sqrt-scale": dict(
+        props=["C12"], file=F, module=FM,
+        old="input, weight, bias, constraint=constraint, scale_power=(1.0, 0.5, 0.5)", new="input, weight, bias, constraint=constraint, scale_power=(0.5, 0.5, 0.5)",
+        job="c12:LinearReadout[constraint=default,depth=None]", expect=["out_scale*lr_factor*fan"],
+    ),
+    "c12-readout-tagged-weight": dict(
+        props=["C12"], file="unit_scaling/_modules.py", module="unit_scaling._modules",
+        old='weight_mup_type: MupType = "output",', new='weight_mup_type: MupType = "weight",',
+        job="c12:LinearReadout[constraint=default,depth=int]", expect=["out_scale*lr_factor*fan", "tag_is_output"],
+    ),
+    "c12-adam-weight-rule-no-fan_in": dict(
+        props=["C12"], file="unit_scaling/optim.py", module="unit_scaling.optim",
+        old="return scale * _get_fan_in(param) ** -0.5", new="return scale",
+        job="c12:Linear[constraint=default,depth=int]", expect=["out_scale*lr_factor*fan"],
+    ),
+    "c12-conv-fan_in-drops-kernel": dict(
+        props=["C12"], file="unit_scaling/optim.py", module="unit_scaling.optim",
+        old="return param.shape[1] * param.shape[2]", new="return param.shape[1]",
+        job="c12:Conv1d[constraint=default,depth=None]", expect=["out_scale*lr_factor*fan"],
+        via="c10:_get_fan_in[rank=3]", via_expect=["_get_fan_in:body==contract"],
+    ),
 }
